@@ -1,0 +1,11 @@
+//go:build verif
+
+package checksum
+
+// Verification hooks (engine `csum`): thin wrappers, no behaviour.
+
+// VerifHasAVX2 reports whether the public Checksum dispatches to the assembly on this CPU.
+func VerifHasAVX2() bool { return hasAVX2 }
+
+// VerifChecksumAVX2 calls the hand-written assembly directly. Only valid when VerifHasAVX2().
+func VerifChecksumAVX2(buf []byte, initial uint16) uint16 { return checksumAVX2(buf, initial) }
